@@ -26,12 +26,17 @@ RULE = ("generated projects (profile reuse: one hub client field with refetchabl
 def run(ctx):
     cli = runner.build_cli()
     rt_common.configure(ctx, ctx.pick(2, 3))
-    results = e3.run_cases(ctx, cli, ["reuse", "rt"], ctx.pick(60, 2500), "c25", [("rt_common", "analyze_c25")])
+    results = e3.run_cases(ctx, cli, ["reuse", "rt"], ctx.pick(60, 1500), "c25", [("rt_common", "analyze_c25")])
     a = e3.aggregate(results, "rt_common.analyze_c25", "distinct")
     obs = {k: v for k, v in sorted(a["stats"].items())}
     cov = {"evaluations": len(results), "distinct_nontrivial": a["distinct"], "rule": RULE,
            "samples": a["samples"] or [{"note": "no generated sample"}], "successful_compiles": a["ok"],
            "programs_with_invoked_refetch_functions": a["nontrivial"], "observed": obs}
+    generated = sum(1 for r in results if str(r.get("cid", "")).split(":")[0] != "checked-in")
+    if generated and a["ok"] < 0.5 * generated:
+        # the generators produce programs the unchanged compiler accepts; if most are rejected (or crash, which is C08's
+        # subject) there is nothing to observe
+        raise runner.Inconclusive("only %d of %d generated programs compiled" % (a["ok"], generated))
     return runner.finish(ctx, LEVEL, cov, a["violations"], assumptions=[
         "same loader assumptions as C10 (@component readers loaded as eager readers, identity resolvers, client pointer resolver "
         "stand-in returning links of the target type)",
